@@ -164,6 +164,30 @@ func loadPair(x *core.Ctx, c *core.Case) (*ast.Schema, *tsys.Merged, *ast.QueryD
 		return nil, nil, nil
 	}
 	mg := tsys.Merge(model.FromSchemaAST(sd).Items)
+	if core.HashString(ssrc)%5 == 1 {
+		// the custom scalars (and enums, one time in two) come from a source of their own that is flagged BuiltIn, the way
+		// frameworks ship the definitions they add themselves (federation's _Any and FieldSet): where a definition was
+		// written does not change what a document may say about it
+		var own, shipped []*model.Item
+		for _, it := range model.FromSchemaAST(sd).Items {
+			if !it.Extend && (it.Kind == "scalar" || (it.Kind == "enum" && core.HashString(ssrc)%2 == 0)) {
+				shipped = append(shipped, it)
+			} else {
+				own = append(own, it)
+			}
+		}
+		if len(shipped) > 0 && len(own) > 0 {
+			rn := &model.Renderer{}
+			s2, err2 := gqlparser.LoadSchema(&ast.Source{Name: "shipped.graphql", Input: rn.RenderSDoc(&model.SDoc{Items: shipped}), BuiltIn: true},
+				&ast.Source{Name: "schema.graphql", Input: rn.RenderSDoc(&model.SDoc{Items: own})})
+			if err2 == nil {
+				schema = s2
+				x.Count("schemas_with_scalars_from_a_builtin_flagged_source")
+			} else {
+				x.Count("skipped:split-schema-does-not-load:" + firstWords(templateOf(err2.Error()), 6))
+			}
+		}
+	}
 	doc, derr := parser.ParseQuery(&ast.Source{Name: "doc.graphql", Input: c.Get("doc")})
 	if derr != nil {
 		if c.Get("expect") != "blind" {
